@@ -808,7 +808,7 @@ func (c *acase) inDomainAddr(addr caddy.NetworkAddress) string {
 	}
 	if c.load {
 		tcpOK := addr.Network == "tcp" && addr.StartPort == 0 && contains([]string{"localhost", "127.0.0.1", "127.0.0.2", "", "0.0.0.0"}, addr.Host)
-		unixOK := addr.Network == "unix" && strings.HasPrefix(addr.Host, "c13-load")
+		unixOK := addr.Network == "unix" && (strings.HasPrefix(addr.Host, "c13-load") || addr.Host == "c13-default.sock")
 		if !tcpOK && !unixOK {
 			return "bad-op" // not bindable from inside the harness
 		}
